@@ -701,6 +701,116 @@ mod verif_proofs {
         core::mem::forget(handler);
     }
 
+    // the same six schedules with channel 1 sending CTAPHID_INIT (0x06): an initialisation command on one channel must not
+    // disturb the message in progress on another channel
+    #[kani::proof]
+    #[kani::unwind(62)]
+    fn c16_interleave2init_0011() {
+        let p0: [u8; 60] = kani::any();
+        let p1: [u8; 60] = kani::any();
+        let mut handler = ChannelHandler::default();
+        assert!(handler.handle_packet(&two_packet_msg(CH0, 0x10, &p0, 0)).is_none());
+        assert!(handler.channels.len() == 1);
+        check_delivered(handler.handle_packet(&two_packet_msg(CH0, 0x10, &p0, 1)), CH0, 0x10, &p0);
+        assert!(handler.channels.len() == 0);
+        assert!(handler.handle_packet(&two_packet_msg(CH1, 0x06, &p1, 0)).is_none());
+        assert!(handler.channels.len() == 1);
+        check_delivered(handler.handle_packet(&two_packet_msg(CH1, 0x06, &p1, 1)), CH1, 0x06, &p1);
+        assert!(handler.channels.len() == 0);
+        kani::cover!(true);
+        core::mem::forget(handler);
+    }
+
+    #[kani::proof]
+    #[kani::unwind(62)]
+    fn c16_interleave2init_0101() {
+        let p0: [u8; 60] = kani::any();
+        let p1: [u8; 60] = kani::any();
+        let mut handler = ChannelHandler::default();
+        assert!(handler.handle_packet(&two_packet_msg(CH0, 0x10, &p0, 0)).is_none());
+        assert!(handler.channels.len() == 1);
+        assert!(handler.handle_packet(&two_packet_msg(CH1, 0x06, &p1, 0)).is_none());
+        assert!(handler.channels.len() == 2);
+        check_delivered(handler.handle_packet(&two_packet_msg(CH0, 0x10, &p0, 1)), CH0, 0x10, &p0);
+        assert!(handler.channels.len() == 1);
+        check_delivered(handler.handle_packet(&two_packet_msg(CH1, 0x06, &p1, 1)), CH1, 0x06, &p1);
+        assert!(handler.channels.len() == 0);
+        kani::cover!(true);
+        core::mem::forget(handler);
+    }
+
+    #[kani::proof]
+    #[kani::unwind(62)]
+    fn c16_interleave2init_0110() {
+        let p0: [u8; 60] = kani::any();
+        let p1: [u8; 60] = kani::any();
+        let mut handler = ChannelHandler::default();
+        assert!(handler.handle_packet(&two_packet_msg(CH0, 0x10, &p0, 0)).is_none());
+        assert!(handler.channels.len() == 1);
+        assert!(handler.handle_packet(&two_packet_msg(CH1, 0x06, &p1, 0)).is_none());
+        assert!(handler.channels.len() == 2);
+        check_delivered(handler.handle_packet(&two_packet_msg(CH1, 0x06, &p1, 1)), CH1, 0x06, &p1);
+        assert!(handler.channels.len() == 1);
+        check_delivered(handler.handle_packet(&two_packet_msg(CH0, 0x10, &p0, 1)), CH0, 0x10, &p0);
+        assert!(handler.channels.len() == 0);
+        kani::cover!(true);
+        core::mem::forget(handler);
+    }
+
+    #[kani::proof]
+    #[kani::unwind(62)]
+    fn c16_interleave2init_1001() {
+        let p0: [u8; 60] = kani::any();
+        let p1: [u8; 60] = kani::any();
+        let mut handler = ChannelHandler::default();
+        assert!(handler.handle_packet(&two_packet_msg(CH1, 0x06, &p1, 0)).is_none());
+        assert!(handler.channels.len() == 1);
+        assert!(handler.handle_packet(&two_packet_msg(CH0, 0x10, &p0, 0)).is_none());
+        assert!(handler.channels.len() == 2);
+        check_delivered(handler.handle_packet(&two_packet_msg(CH0, 0x10, &p0, 1)), CH0, 0x10, &p0);
+        assert!(handler.channels.len() == 1);
+        check_delivered(handler.handle_packet(&two_packet_msg(CH1, 0x06, &p1, 1)), CH1, 0x06, &p1);
+        assert!(handler.channels.len() == 0);
+        kani::cover!(true);
+        core::mem::forget(handler);
+    }
+
+    #[kani::proof]
+    #[kani::unwind(62)]
+    fn c16_interleave2init_1010() {
+        let p0: [u8; 60] = kani::any();
+        let p1: [u8; 60] = kani::any();
+        let mut handler = ChannelHandler::default();
+        assert!(handler.handle_packet(&two_packet_msg(CH1, 0x06, &p1, 0)).is_none());
+        assert!(handler.channels.len() == 1);
+        assert!(handler.handle_packet(&two_packet_msg(CH0, 0x10, &p0, 0)).is_none());
+        assert!(handler.channels.len() == 2);
+        check_delivered(handler.handle_packet(&two_packet_msg(CH1, 0x06, &p1, 1)), CH1, 0x06, &p1);
+        assert!(handler.channels.len() == 1);
+        check_delivered(handler.handle_packet(&two_packet_msg(CH0, 0x10, &p0, 1)), CH0, 0x10, &p0);
+        assert!(handler.channels.len() == 0);
+        kani::cover!(true);
+        core::mem::forget(handler);
+    }
+
+    #[kani::proof]
+    #[kani::unwind(62)]
+    fn c16_interleave2init_1100() {
+        let p0: [u8; 60] = kani::any();
+        let p1: [u8; 60] = kani::any();
+        let mut handler = ChannelHandler::default();
+        assert!(handler.handle_packet(&two_packet_msg(CH1, 0x06, &p1, 0)).is_none());
+        assert!(handler.channels.len() == 1);
+        check_delivered(handler.handle_packet(&two_packet_msg(CH1, 0x06, &p1, 1)), CH1, 0x06, &p1);
+        assert!(handler.channels.len() == 0);
+        assert!(handler.handle_packet(&two_packet_msg(CH0, 0x10, &p0, 0)).is_none());
+        assert!(handler.channels.len() == 1);
+        check_delivered(handler.handle_packet(&two_packet_msg(CH0, 0x10, &p0, 1)), CH0, 0x10, &p0);
+        assert!(handler.channels.len() == 0);
+        kani::cover!(true);
+        core::mem::forget(handler);
+    }
+
     #[kani::proof]
     #[kani::unwind(62)]
     fn c16_interleave3_001122() {
